@@ -652,6 +652,7 @@ def knn_filter(points:torch.Tensor, k:int, pdim:int=None, radius:float=None, ord
     diff = points[..., :pdim].unsqueeze(-2) - points[..., :pdim].unsqueeze(-3)
     dist = torch.linalg.norm(diff, dim=-1, ord=ord)
 
+    source = points
     if radius is not None:
         count = torch.sum(dist <= radius, dim=-1) - 1
         rmask = count >= k
@@ -660,5 +661,5 @@ def knn_filter(points:torch.Tensor, k:int, pdim:int=None, radius:float=None, ord
     _, idx = dist.topk(k+1, dim=-1, largest=False, sorted=True)
     shape = points.size() + torch.Size([k+1])
     idx = idx.unsqueeze(-2).expand(shape) # expand to [B, D, K+1]
-    points = points.unsqueeze(-1).expand(shape) # expand to [B, D, K+1]
-    return torch.gather(points, -3, idx).mean(dim=-1)
+    source = source.unsqueeze(-1).expand(source.size() + torch.Size([k+1]))
+    return torch.gather(source, -3, idx).mean(dim=-1)
